@@ -222,18 +222,18 @@ Section SearchProofs.
     fold_left (visit q ef) nbrs (vis, cs, rs) = (vis', cs', rs') ->
     good q vis rs -> good q vis' rs'.
   Proof.
-    induction nbrs as [|nb t IH]; simpl; intros vis cs rs vis' cs' rs' E G.
+    induction nbrs as [|nb t IH]; cbn [fold_left]; intros vis cs rs vis' cs' rs' E G.
     - inversion E; subst. exact G.
     - destruct (visit q ef (vis, cs, rs) nb) as [[v1 c1] r1] eqn:Ev.
       destruct (visit_good _ _ _ _ _ _ _ _ _ Ev G) as [G1 _].
-      eapply IH; eauto.
+      exact (IH _ _ _ _ _ _ E G1).
   Qed.
 
   Lemma sl_loop_good q layer ef : forall n vis cs rs out,
     sl_loop q layer ef n (vis, cs, rs) = Some out ->
     good q vis rs -> exists vis', good q vis' out.
   Proof.
-    induction n as [|n IH]; simpl; intros vis cs rs out E G; [discriminate|].
+    induction n as [|n IH]; cbn [Model.sl_loop]; intros vis cs rs out E G; [discriminate|].
     destruct cs as [|c cs'].
     - inversion E; subst. eauto.
     - destruct (match rs with
@@ -282,7 +282,9 @@ Section SearchProofs.
     /\ Sorted (fun a b => leK a b = true) (map snd rs).
 
   Lemma sound_nil q k : sound q k [].
-  Proof. repeat split; simpl; try constructor; try lia. intros ? ? []. Qed.
+  Proof.
+    unfold sound. simpl. split; [lia|]. split; [constructor|]. split; [intros ? ? []|constructor].
+  Qed.
 
   Lemma search_attempt_sound q k rs : search_attempt q k = Ok rs -> sound q k rs.
   Proof.
@@ -348,16 +350,16 @@ Section SearchProofs.
     fold_left (visit q ef) nbrs (vis, cs, rs) = (vis', cs', rs') ->
     length rs <= ef -> length rs' <= ef.
   Proof.
-    induction nbrs as [|nb t IH]; simpl; intros vis cs rs vis' cs' rs' E L.
+    induction nbrs as [|nb t IH]; cbn [fold_left]; intros vis cs rs vis' cs' rs' E L.
     - inversion E; subst. exact L.
     - destruct (visit q ef (vis, cs, rs) nb) as [[v1 c1] r1] eqn:Ev.
-      eapply IH; [exact E|]. eapply visit_len; eauto.
+      refine (IH _ _ _ _ _ _ E _). eapply visit_len; eauto.
   Qed.
 
   Lemma sl_loop_len q layer ef : forall n vis cs rs out,
     sl_loop q layer ef n (vis, cs, rs) = Some out -> length rs <= ef -> length out <= ef.
   Proof.
-    induction n as [|n IH]; simpl; intros vis cs rs out E L; [discriminate|].
+    induction n as [|n IH]; cbn [Model.sl_loop]; intros vis cs rs out E L; [discriminate|].
     destruct cs as [|c cs'].
     - inversion E; subst. exact L.
     - destruct (match rs with [] => false | mx :: _ => _ end).
@@ -502,7 +504,7 @@ Section RemoveProofs.
     fold_left (rm_step id) nids (g, dirty) = (g', dirty') ->
     (clookup g' j = None <-> clookup g j = None).
   Proof.
-    induction nids as [|nid t IH]; simpl; intros g dirty g' dirty' j E.
+    induction nids as [|nid t IH]; cbn [fold_left]; intros g dirty g' dirty' j E.
     - inversion E; subst. tauto.
     - destruct (rm_step id (g, dirty) nid) as [g1 d1] eqn:Es.
       rewrite (IH _ _ _ _ j E). eapply rm_step_dom; eauto.
@@ -529,13 +531,11 @@ Section RemoveProofs.
       unfold after_remove. simpl.
       assert (Hdom : forall j, clookup nodes2 j = None <-> clookup (cremove (ix_nodes ix) id) j = None)
         by (intros j; eapply rm_fold_dom; eauto).
-      repeat split.
+      split; [|split; [|split; [|split]]].
       + apply Hdom. apply clookup_cremove_same.
       + apply zremove_not_In.
-      + intros H. apply Hdom in H. rewrite clookup_cremove_other in H by assumption. exact H.
-      + intros H. apply Hdom. rewrite clookup_cremove_other by assumption. exact H.
-      + intros H. apply zremove_In in H. tauto.
-      + intros H. apply zremove_In. tauto.
+      + intros j Hj. rewrite Hdom. rewrite clookup_cremove_other by assumption. tauto.
+      + intros j Hj. rewrite zremove_In. tauto.
       + destruct (Z.eqb (fst (ix_entry ix)) id) eqn:Ee.
         * destruct (repair_entry_ok (cremove (ix_nodes ix) id)) as [Hempty|Hok].
           -- left. destruct nodes2 as [|[k n] t]; [reflexivity|]. exfalso.
